@@ -435,3 +435,67 @@ func (m *Model) SortedIds() []uuid.UUID {
 	sort.Slice(ids, func(i, j int) bool { return strings.Compare(ids[i].String(), ids[j].String()) < 0 })
 	return ids
 }
+
+// EqualLoose compares a stored document value with one that went through a
+// JSON response: numbers are compared by value whatever their kind (float32
+// values within float32 precision), byte strings may arrive base64 encoded.
+func EqualLoose(a, b any) bool {
+	if a == nil || b == nil {
+		return a == nil && b == nil
+	}
+	ca, ia, ua, fa := classify(a)
+	cb, ib, ub, fb := classify(b)
+	if ca != notNum && cb != notNum {
+		toF := func(c numClass, i int64, u uint64, f float64) float64 {
+			switch c {
+			case intNum:
+				return float64(i)
+			case uintNum:
+				return float64(u)
+			}
+			return f
+		}
+		x, y := toF(ca, ia, ua, fa), toF(cb, ib, ub, fb)
+		if x == y {
+			return true
+		}
+		return math.Abs(x-y) <= 1e-6*math.Max(1, math.Max(math.Abs(x), math.Abs(y)))
+	}
+	if ca != notNum || cb != notNum {
+		return false
+	}
+	switch x := a.(type) {
+	case map[string]any:
+		y, ok := b.(map[string]any)
+		if !ok || len(x) != len(y) {
+			return false
+		}
+		for k, v := range x {
+			w, ok := y[k]
+			if !ok || !EqualLoose(v, w) {
+				return false
+			}
+		}
+		return true
+	case string:
+		y, ok := b.(string)
+		return ok && x == y
+	case bool:
+		y, ok := b.(bool)
+		return ok && x == y
+	}
+	la, oka := asList(a)
+	lb, okb := asList(b)
+	if oka && okb {
+		if len(la) != len(lb) {
+			return false
+		}
+		for i := range la {
+			if !EqualLoose(la[i], lb[i]) {
+				return false
+			}
+		}
+		return true
+	}
+	return reflect.DeepEqual(a, b)
+}
